@@ -84,6 +84,45 @@ Definition schema_defaults_ok (S : schema) : bool :=
                      end) (s_types S)
   && forallb (fun nd => forallb (fun a => default_ok (snd a)) (dd_args (snd nd))) (s_directives S).
 
+(** an object type has the fields of the interfaces it declares, requiring no more features than the
+    interface's field does (ObjectType.satisfyInterface), and the members of a union are object types *)
+Definition implements_ok (S : schema) (ofs : list (name * field_def)) (i : name) : bool :=
+  match raw_body S i with
+  | Some (TInterface ifs) =>
+      forallb (fun nf => match assoc (fst nf) ofs with
+                         | Some fd' => subset (f_req fd') (f_req (snd nf))
+                         | None => false
+                         end) ifs
+  | _ => true
+  end.
+Definition schema_ifaces_ok (S : schema) : bool :=
+  forallb (fun nt => match t_body (snd nt) with
+                     | TObject ofs ifs => forallb (implements_ok S ofs) ifs
+                     | TUnion ms => forallb (fun m => match raw_body S m with Some (TObject _ _) => true | _ => false end) ms
+                     | _ => true
+                     end) (s_types S).
+
+(** positions, as the parser assigns them: the selection sets of the document sit at pairwise
+    distinct positions, and so do its field selections (addFieldSelections identifies a selection set
+    by where it opens, the checked-pairs memo a field by where it starts) *)
+Fixpoint h_subs_sel (s : selection) : list selset :=
+  match s with
+  | SField _ _ _ _ _ _ (Some ss) => h_subs_ss ss
+  | SField _ _ _ _ _ _ None => []
+  | SSpread _ _ _ _ => []
+  | SInline _ _ ss _ => h_subs_ss ss
+  end
+with h_subs_ss (ss : selset) : list selset :=
+  ss :: match ss with SelSet _ sels _ => flat_map h_subs_sel sels end.
+Definition h_all_subs (D : document) : list selset := flat_map (fun d => h_subs_ss (def_sub d)) D.
+Definition h_is_field (s : selection) : bool := match s with SField _ _ _ _ _ _ _ => true | _ => false end.
+Definition h_field_positions (D : document) : list pos :=
+  flat_map (fun ss => map sel_pos (filter h_is_field (ss_sels ss))) (h_all_subs D).
+Fixpoint pnodupb (l : list pos) : bool :=
+  match l with [] => true | x :: r => negb (pmem x r) && pnodupb r end.
+Definition doc_positions_ok (D : document) : bool :=
+  pnodupb (map ss_pos (h_all_subs D)) && pnodupb (h_field_positions D).
+
 (** every field selection of the document has a definition (5.3.1 holds and every selection set has
     a known parent type) *)
 Definition fields_defined (S : schema) (F : features) (D : document) : bool :=
